@@ -20,7 +20,11 @@ RULE = ("cases: random rooted trees with 2..6 nodes (all ordered trees up to 5 n
         "child order, Hermitian or not, 2 consecutive steps, three TDVP variants; every time_evolve call is one "
         "evaluation; plus real TTNS/TTNO pairs on random trees with 2..7 nodes whose observed event sequence of one "
         "whole time step (site / link / two-site updates, centre moves, cache rebuilds; three TDVP classes) is "
-        "compared with the discipline machine; "
+        "compared with the discipline machine; plus the input-space audit families (one-node trees, non-diagonal TTNOs "
+        "with per-edge bond dimensions, caller states that are already canonical, two-site truncation switched on, default "
+        "configuration / builder function / other exponential modes, real / integer / single-precision tensors, state and "
+        "Hamiltonian magnitudes 1e-8..1e8, physical dimension 1, identifiers that are prefixes of each other, read-only "
+        "tensors, setter / reset histories); "
         "non-trivial = distinct (tree shape, variant, seed) with at least 3 nodes or a redundant bond")
 PARTIAL = ["the local propagator itself (time_evolve) is property C20",
            "durations: proved for arbitrary segment lists (first_*/second_*/twoSite_* totals) and, with the C17 segment "
@@ -43,10 +47,16 @@ ASSUMPTIONS = ["dense embedding built from algo.state by tensordot over labelled
                "numpy tensordot / reshape semantics"]
 
 
+# Families that are switched off because the UNCHANGED /repo fails them (possible genuine defects, reported to the
+# coordinator; delete an entry once /repo is repaired or the finding is recorded in known_findings.json).
+PENDING_FINDINGS = {}       # builder-default-config: repaired in /repo (known_findings.json F-C06b)
+
+
 class Recorder:
     """Observes time_evolve (guarded hook) and contract_nodes (wrapped from outside)."""
 
     def __init__(self):
+        self.tol = 1e-8
         self.events = []
         self.contracts = []
         self.algo = None
@@ -129,10 +139,12 @@ class Recorder:
         if heff.shape != want.shape:
             self.problems.append(f"{kind}{pos}: effective Hamiltonian has shape {heff.shape}, E^H H E has {want.shape}")
             return
-        scale = max(1.0, np.linalg.norm(want))
+        # relative to the data: E is a partial isometry (all other tensors are isometries toward the local tensor),
+        # so |E^H H E| <= |H|; an absolute floor would hide every error for Hamiltonians of small magnitude
+        scale = max(np.linalg.norm(want), np.linalg.norm(self.Hm)) or 1.0
         err = np.linalg.norm(heff - want) / scale
         self.max_err = max(self.max_err, err)
-        if err > 1e-8:
+        if err > self.tol:
             self.problems.append(f"{kind}{pos}: effective Hamiltonian differs from E^H H E (rel. err {err:.2e})")
 
 
@@ -194,6 +206,7 @@ def gen_cases(ctx):
         for v in variants:
             cases.append({"variant": v, "par": par, "seed": rng.randrange(10 ** 9), "herm": rng.random() < 0.5,
                           "steps": 2, "retime_after": rng.choice([0, 1]), "retime_n": rng.choice([2, 3, 4])})
+    cases += audit_cases(ctx, variants)
     for _ in range(ctx.n(40, 200)):
         for v in variants:
             n = rng.choice([2, 3, 3, 4, 4, 5, 5, 6])
@@ -208,6 +221,61 @@ def gen_cases(ctx):
             cases.append({"variant": v, "par": par, "seed": rng.randrange(10 ** 9),
                           "herm": rng.random() < 0.6, "steps": 2})
     return cases
+
+
+PREFIX_NAMES = ["n1", "n10", "n1_", "n", "n100", "n11", "1"]     # identifiers that are prefixes / substrings of each other
+NAME_SETS = {"prefix": PREFIX_NAMES,
+             # an identifier equal to the temporary link identifier of the edge a-b (see c06.PENDING_FINDINGS)
+             "reserved": ["a", "link_a_with_b", "b", "a_with_b"]}
+
+
+def audit_cases(ctx, variants, steps=2):
+    """Input-space audit families (notes/C05.md): every case carries 'fam' and the keys `_problem` / `make_algo`
+    interpret; shared with C06 / C07 (same keys)."""
+    rng = ctx.subrng("audit")
+    out = []
+
+    def shape(nmax=5):
+        n = rng.choice([m for m in (2, 3, 3, 4, 4, 5) if m <= nmax])
+        return gen.random_parent_array(rng, n)
+
+    def add(fam, v, par, **kw):
+        out.append(dict({"variant": v, "par": par, "seed": rng.randrange(10 ** 9), "herm": rng.random() < 0.5,
+                         "steps": steps, "fam": fam}, **kw))
+
+    for v in variants:
+        for _ in range(ctx.n(2, 6)):
+            add("one-node", v, [-1], steps=1, phys=[rng.choice([2, 3, 5])])
+        for _ in range(ctx.n(6, 30)):
+            add("generic-ttno", v, rng.choice(gen.HARD_SHAPES[:3] + [shape(), shape(), shape()]), ttno="generic")
+        for _ in range(ctx.n(5, 25)):
+            add("pregauged", v, shape(), pregauge=rng.choice(["KEEP", "REDUCED"]),
+                gauge_at=rng.choice(["start", "random", "random"]), ttno=rng.choice([None, "generic"]))
+        for cfg in ["none", "builder", "chebyshev", "sparse", "builder-default"]:
+            for _ in range(ctx.n(1, 4)):
+                add("config", v, shape(4), cfg=cfg)
+        for dtype in ["real", "int", "single", "csingle"]:
+            for _ in range(ctx.n(1, 4)):
+                add("dtype", v, shape(4), dtype=dtype, herm=True)
+        for ss, hs in [(1e-8, 1.0), (1e8, 1.0), (1.0, 1e-6), (1.0, 1e4), (1e-8, 1e-6), (1e8, 1e4), (1e-150, 1.0)]:
+            # (a non-Hermitian generator of large magnitude makes exp(-iH dt) overflow: the large one is Hermitian)
+            add("magnitude", v, shape(4), sscale=ss, hscale=hs, **({"herm": True} if hs > 1 else {}))
+        add("magnitude", v, shape(4), zero=True)
+        for _ in range(ctx.n(3, 12)):
+            add("phys1-names", v, shape(), phys=[1, 2, 1, 3], names="prefix")
+        for _ in range(ctx.n(2, 8)):
+            add("read-only", v, shape(4), readonly=True, ttno=rng.choice([None, "generic"]))
+        for hist in [{"reset_after": 1, "retime_after": 1, "retime_n": 3}, {"setn_after": 1, "setn": 7},
+                     {"retime_after": 0, "retime_n": 2, "reset_after": 2}, {"reset_after": 1, "pregauge": "KEEP",
+                                                                            "gauge_at": "random"}]:
+            add("history", v, shape(4), steps=3, **hist)
+    for _ in range(ctx.n(10, 40)):
+        svd = dict(max_bond_dim=rng.choice([1, 2, 2, 3]), rel_tol=rng.choice([float("-inf"), 1e-3, 0.2]),
+                   total_tol=rng.choice([float("-inf"), 1e-3, 0.1]), renorm=rng.random() < 0.3,
+                   sum_trunc=rng.random() < 0.3)
+        if "tdvp2site" in variants:
+            add("two-site-truncation", "tdvp2site", shape(), svd=svd, ttno=rng.choice([None, "generic"]))
+    return out
 
 
 def run(ctx):
@@ -255,21 +323,168 @@ def run_case(ctx, case):
         rec.uninstall()
 
 
+NO_TRUNC = dict(max_bond_dim=float("inf"), rel_tol=float("-inf"), total_tol=float("-inf"))
+AUDIT_KEYS = ("fam", "names", "phys", "ttno", "dtype", "sscale", "hscale", "pregauge", "readonly", "svd", "cfg",
+              "setn_after", "zero")
+
+
+def generic_ttno(rng, nprng, par, phys, names, hermitian, real=False, scale=1.0):
+    """A TTNO whose tensors are NOT diagonal in the bond indices and whose bond dimension differs from edge to edge:
+    a generic TTNO A (random dense tensors), or for hermitian=True the direct sum A + A^dagger (bond 2*b per edge,
+    block-diagonal over the two summands).  Its own child order.  Returns (ttno, dense matrix over sorted names), the
+    matrix being read off the tensors by the independent dense contraction."""
+    from pytreenet.ttno.ttno_class import TreeTensorNetworkOperator
+    n = len(par)
+    b = {(p, i): rng.choice((1, 2, 3)) for i, p in enumerate(par) if p >= 0}
+    order = gen.insertion_order(rng, par)
+    attach = {i: [] for i in range(n)}
+    for x in order:
+        if par[x] >= 0:
+            attach[par[x]].append(x)
+    tensors = {}
+    for i in range(n):
+        vd = ([b[(par[i], i)]] if par[i] >= 0 else []) + [b[(i, c)] for c in attach[i]]
+        d = phys[i]
+        A = gen.rand_tensor(nprng, vd + [d, d], complex_=not real)
+        if not hermitian:
+            tensors[i] = A
+            continue
+        Ad = np.conj(np.swapaxes(A, -1, -2))
+        if not vd:
+            tensors[i] = A + Ad
+            continue
+        T = np.zeros([2 * x for x in vd] + [d, d], dtype=A.dtype)
+        T[tuple(slice(0, x) for x in vd)] = A
+        T[tuple(slice(x, 2 * x) for x in vd)] = Ad
+        tensors[i] = T
+    bond = {e: (2 if hermitian else 1) * v for e, v in b.items()}
+    open_dims = {i: [phys[i], phys[i]] for i in range(n)}
+    ttno, *_ = gen.build_network(TreeTensorNetworkOperator, par, bond, open_dims, rng, nprng, names=names,
+                                 order=order, tensors=tensors)
+    Hm = dense.ttno_matrix(ttno, sorted(names.values())).astype(complex)
+    # root-mean-square eigenvalue scale*1.5 (spectral norm of a few units): products of random dense tensors have norms of
+    # several hundred, which would turn the conservation / reversibility clauses of C06-C09 into statements about
+    # ill-conditioned local flows
+    nrm = np.linalg.norm(Hm) / np.sqrt(Hm.shape[0])
+    if nrm > 0:
+        f = 1.5 * scale / nrm
+        ttno.replace_tensor(ttno.root_id, ttno.tensors[ttno.root_id] * f)
+        Hm = Hm * f
+    return ttno, Hm
+
+
+def _cast(x, dtype):
+    if dtype == "int":
+        return np.round(3 * np.real(x)).astype(np.int64)
+    if dtype == "single":
+        return np.real(x).astype(np.float32)
+    if dtype == "csingle":
+        return x.astype(np.complex64)
+    return x
+
+
+def specialise(case, rng, ttns, H, Hm):
+    """Applies the audit keys that act on an already built (state, Hamiltonian) pair. Returns the dense Hamiltonian
+    matching the (possibly cast) TTNO and the tolerance factor of the element type."""
+    order = sorted(ttns.nodes)
+    dtype = case.get("dtype")
+    if dtype in ("int", "single", "csingle"):
+        for net in (ttns, H):
+            for nid in list(net.nodes):
+                net.replace_tensor(nid, _cast(net.tensors[nid], dtype))
+        Hm = dense.ttno_matrix(H, order).astype(complex)
+    if case.get("sscale") or case.get("zero"):
+        # one tensor multiplied by the factor; zero=True: an all-zero tensor (the zero state; every relative tolerance
+        # then demands exactly zero, which linear algebra on exact zeros delivers)
+        nid = order[case["seed"] % len(order)]
+        ttns.replace_tensor(nid, ttns.tensors[nid] * (0.0 if case.get("zero") else case["sscale"]))
+    if case.get("pregauge") and case.get("gauge_at"):
+        from pytreenet.util.tensor_splitting import SplitMode
+        from pytreenet.time_evolution.time_evo_util.update_path import TDVPUpdatePathFinder
+        centre = {"start": lambda: TDVPUpdatePathFinder(ttns).find_path()[0],
+                  "root": lambda: ttns.root_id,
+                  "nonroot": lambda: rng.choice([x for x in order if x != ttns.root_id] or order)
+                  }.get(case["gauge_at"], lambda: rng.choice(order))()
+        ttns.canonical_form(centre, mode=getattr(SplitMode, case["pregauge"]))
+    if case.get("readonly"):
+        for net in (ttns, H):
+            for nid in list(net.nodes):
+                x = np.array(net.tensors[nid])
+                x.setflags(write=False)
+                net.replace_tensor(nid, x)
+    return Hm, (5e3 if dtype in ("single", "csingle") else 1.0)
+
+
 def _problem(case):
     rng = random.Random(case["seed"])
     nprng = np.random.default_rng(case["seed"])
     par = case["par"]
     n = len(par)
-    ttns, info = gen.random_ttns(rng, nprng, par, phys=(2, 2, 3) if n <= 5 else (2,), bonds=(1, 2, 2, 3))
+    real = case.get("dtype") in ("real", "int", "single")
+    realH = case.get("dtype") in ("int", "single")      # dtype "real": real state, complex Hamiltonian
+    kw = {}
+    if case.get("names"):
+        kw["names"] = {i: NAME_SETS[case["names"]][i] for i in range(n)}
+    if real:
+        kw["complex_"] = False
+    phys_choices = tuple(case["phys"]) if case.get("phys") else ((2, 2, 3) if n <= 5 else (2,))
+    ttns, info = gen.random_ttns(rng, nprng, par, phys=phys_choices, bonds=(1, 2, 2, 3), **kw)
     names = info["names"]
     phys = {i: info["open"][i][0] for i in range(n)}
-    terms = []
-    for _ in range(rng.randint(1, 3)):
-        sites = rng.sample(range(n), rng.randint(1, min(2, n)))
-        terms.append({s: (gen.rand_hermitian(nprng, phys[s]) if case["herm"]
-                          else gen.rand_tensor(nprng, (phys[s], phys[s]))) for s in sites})
-    H, Hm = algos.ttno_from_terms(par, phys, names, terms, rng, nprng)
+    hs = case.get("hscale") or 1.0
+    if case.get("ttno") == "generic":
+        H, Hm = generic_ttno(rng, nprng, par, phys, names, case["herm"], real=realH, scale=hs)
+    else:
+        terms = []
+        for _ in range(rng.randint(1, 3)):
+            sites = rng.sample(range(n), rng.randint(1, min(2, n)))
+            terms.append({s: (gen.rand_hermitian(nprng, phys[s]) if case["herm"]
+                              else gen.rand_tensor(nprng, (phys[s], phys[s]))) for s in sites})
+        if realH or hs != 1.0:
+            for t in terms:
+                k0 = next(iter(t))
+                for k in t:
+                    t[k] = (np.real(t[k]) if realH else t[k]) * (hs if k == k0 else 1.0)
+        H, Hm = algos.ttno_from_terms(par, phys, names, terms, rng, nprng)
+        if realH:
+            for nid in list(H.nodes):
+                H.replace_tensor(nid, np.real(H.tensors[nid]))
+    Hm, tolf = specialise(case, rng, ttns, H, Hm)
+    info["tolf"] = tolf
     return rng, nprng, ttns, info, H, Hm
+
+
+def make_algo(case, variant, ttns, H, dt, T):
+    """The algorithm object through the entry point / configuration the case asks for (default: explicit EXPM config,
+    truncation disabled).  Returns None for a family that is switched off in PENDING_FINDINGS."""
+    cfg, svd = case.get("cfg"), case.get("svd")
+    if cfg is None and svd != "default":
+        return algos.make_algo(variant, ttns, H, dt, T, [], svd=dict(svd) if svd else None)
+    from pytreenet.time_evolution.time_evolution import TimeEvoMode
+    from pytreenet.time_evolution.tdvp_algorithms.tdvp_algorithm import TDVPConfig
+    from pytreenet.util.tensor_splitting import SVDParameters
+    # svd == "default": the documented default of the optional truncation argument (None -> SVDParameters())
+    svdp = None if svd == "default" else SVDParameters(**(dict(svd) if svd else NO_TRUNC))
+    cfg = cfg or "expm"
+    if cfg in ("builder", "builder-default"):
+        if cfg == "builder-default" and "builder-default-config" in PENDING_FINDINGS:
+            return None
+        from pytreenet.time_evolution.tdvp import tdvp, TDVPConfig as BuilderConfig
+        order, sites = {"tdvp1": (1, 1), "tdvp2": (2, 1), "tdvp2site": (2, 2)}[variant]
+        if cfg == "builder":
+            bc = BuilderConfig(order=order, sites=sites, svd_params=svdp,
+                               time_evo_config=TDVPConfig(time_evo_mode=TimeEvoMode.EXPM))
+        else:
+            bc = BuilderConfig(order=order, sites=sites, svd_params=svdp)
+        return tdvp(ttns, H, dt, T, [], bc)
+    config = None if cfg == "none" else TDVPConfig(time_evo_mode={"chebyshev": TimeEvoMode.CHEBYSHEV,
+                                                                  "sparse": TimeEvoMode.SPARSE,
+                                                                  "fastest": TimeEvoMode.FASTEST,
+                                                                  "expm": TimeEvoMode.EXPM}[cfg])
+    cls = algos.tdvp_classes()[variant]
+    if variant == "tdvp2site":
+        return cls(ttns, H, dt, T, [], svdp, config=config)
+    return cls(ttns, H, dt, T, [], config=config)
 
 
 def _run_impl(ctx, case, rec):
@@ -280,16 +495,29 @@ def _run_impl(ctx, case, rec):
     variant = case["variant"]
     dt = 0.01
     redundant = any(_redundant(ttns, nid) for nid in ttns.nodes)
+    special = any(case.get(k) for k in AUDIT_KEYS)
     ctx.tally("variant", variant)
     ctx.tally("nodes", n)
     ctx.tally("hermitian", case["herm"])
     ctx.tally("redundant_bond", redundant)
+    ctx.tally("audit_family", case.get("fam", "-"))
+    for k in ("ttno", "cfg", "dtype", "pregauge"):
+        if case.get(k):
+            ctx.tally("audit_" + k, case[k])
+    if case.get("sscale") or case.get("hscale") or case.get("zero"):
+        ctx.tally("audit_magnitude", f"state {0.0 if case.get('zero') else case.get('sscale') or 1.0:g} "
+                                     f"H {case.get('hscale') or 1.0:g}")
     ctx.sample(case, 3)
     try:
-        algo = algos.make_algo(variant, ttns, H, dt, dt, [])
+        algo = make_algo(case, variant, ttns, H, dt, dt)
     except Exception as e:          # noqa: BLE001
         ctx.oracle_fail(case, f"{variant}: construction raised {type(e).__name__}: {str(e)[:200]}")
         return None
+    if algo is None:
+        ctx.tally("pending_finding_skipped", case.get("cfg"))
+        return None
+    rec.tol = 1e-8 * info["tolf"]
+    rec.max_err = 0.0
     inv = {v: k for k, v in names.items()}
     adj = {nid: ([nd.parent] if nd.parent is not None else []) + list(nd.children)
            for nid, nd in ttns.nodes.items()}
@@ -298,8 +526,8 @@ def _run_impl(ctx, case, rec):
     for i in range(len(up) - 1):
         path = dense.path_between(ttns, up[i], up[i + 1])
         segs.append((up[i], path[1]))
-    model_line = f"C05 trace {'first' if variant == 'tdvp1' else 'second' if variant == 'tdvp2' else 'twosite'} " \
-                 f"{inv[up[-1]]} " + " ".join(f"{inv[a]}:{inv[b]}" for a, b in segs)
+    model_line = (f"C05 trace {'first' if variant == 'tdvp1' else 'second' if variant == 'tdvp2' else 'twosite'} "
+                  f"{inv[up[-1]]} " + " ".join(f"{inv[a]}:{inv[b]}" for a, b in segs)).strip()
     per_step = []
     rec.algo, rec.Hm, rec.order = algo, Hm, order
     for step in range(case["steps"]):
@@ -314,12 +542,21 @@ def _run_impl(ctx, case, rec):
                 # use the new value (durations are stated in terms of the step size in force)
                 algo.set_num_time_steps_constant_final_time(case["retime_n"])
                 dt = algo.time_step_size
+            if case.get("setn_after") == step:
+                # changes the number of steps and the final time, NOT the step size: durations stay multiples of dt
+                algo.set_num_time_steps(case["setn"])
             algo.run_one_time_step()
         except Exception as e:      # noqa: BLE001
             rec.algo = None
+            if n == 1 and variant != "tdvp1":
+                # the second-order schedules are undefined on a single node (the model answers `none`); the property
+                # promises nothing there, the correspondence demands that model and code agree on "no step"
+                ctx.count((variant, "one-node", case["seed"]), nontrivial=True)
+                return {"model_line": model_line, "per_step": None, "inv": inv}
             ctx.oracle_fail(case, f"{variant}: step {step} raised {type(e).__name__}: {str(e)[:200]}")
             return None
-        ctx.count((variant, tuple(case["par"]), case["seed"], step), nontrivial=(n >= 3 or redundant))
+        ctx.count((variant, tuple(case["par"]), case["seed"], step, case.get("fam")),
+                  nontrivial=(n >= 3 or redundant or special))
         ctx.evaluations += max(0, len(rec.events) - 1)
         ctx.hyp_validated += len(rec.events)
         if rec.problems:
@@ -342,7 +579,8 @@ def _run_impl(ctx, case, rec):
             ctx.oracle_fail(case, f"{variant} step {step}: " + "; ".join(probs[:3]))
             return None
     rec.algo = None
-    ctx.notes["max_heff_rel_err"] = max(ctx.notes.get("max_heff_rel_err", 0.0), rec.max_err)
+    key = "max_heff_rel_err" if info["tolf"] == 1.0 else "max_heff_rel_err_single_precision"
+    ctx.notes[key] = max(ctx.notes.get(key, 0.0), rec.max_err)
     return {"model_line": model_line, "per_step": per_step, "inv": inv}
 
 
@@ -405,6 +643,10 @@ def _canon(ev_list):
 def _compare_model(ctx, case, o, model_out):
     inv = o["inv"]
     ctx.corr_cases += 1
+    if o["per_step"] is None:
+        if model_out != "none":
+            ctx.corr_fail(case, f"{case['variant']}: the implementation completes no step, the model answers [{model_out}]")
+        return
     # canonicalise the model's link orientation
     toks = []
     for tok in model_out.split():
